@@ -109,7 +109,12 @@ func c15Grammar(f *Fix, tier string, sessPath, sessID string) []c15Req {
 		}
 	}
 	// manifest PUT bodies and parameters
-	for _, b := range []nm{{"empty", ""}, {"junk", "\x00\x01junk"}, {"truncated", string(i1.Data[:40])}, {"json-array", "[1,2]"}, {"deep-null", `{"config":null,"layers":null}`}, {"layers-null-entry", `{"schemaVersion":2,"mediaType":"` + mtImg + `","config":{"digest":""},"layers":[null]}`}} {
+	for _, b := range []nm{{"empty", ""}, {"junk", "\x00\x01junk"}, {"truncated", string(i1.Data[:40])}, {"json-array", "[1,2]"}, {"deep-null", `{"config":null,"layers":null}`}, {"layers-null-entry", `{"schemaVersion":2,"mediaType":"` + mtImg + `","config":{"digest":""},"layers":[null]}`},
+		// shapes of the optional lists and objects: present but empty, null, of the wrong type
+		{"manifests-empty", `{"schemaVersion":2,"manifests":[]}`}, {"manifests-null", `{"schemaVersion":2,"manifests":null}`}, {"manifests-null-entry", `{"schemaVersion":2,"manifests":[null]}`},
+		{"manifests-empty-object-entry", `{"schemaVersion":2,"manifests":[{}]}`}, {"layers-empty-config-empty", `{"schemaVersion":2,"config":{},"layers":[]}`}, {"manifests-string", `{"schemaVersion":2,"manifests":"x"}`},
+		{"subject-null", `{"schemaVersion":2,"mediaType":"` + mtImg + `","config":{"mediaType":"application/vnd.oci.empty.v1+json","digest":"` + f.Items["c"].Dig + `","size":2},"layers":[],"subject":null}`},
+		{"subject-empty-object", `{"schemaVersion":2,"mediaType":"` + mtIdx + `","manifests":[],"subject":{}}`}} {
 		for _, ct := range []string{mtImg, mtIdx, "", "text/plain", mtImg + "; charset=utf-8"} {
 			hdr := map[string]string{}
 			if ct != "" {
